@@ -265,6 +265,11 @@ def value_level(ctx, n):
         ctx.count('top:%s' % a['t'])
         agree = None
         if m is not None:
+            # 0. the hypothesis class of C13_roundtrip: every value the model calls Good round-trips for real
+            ctx.count('Good (theorem applies)' if m.get('good') else 'outside Good')
+            if m.get('good'):
+                ctx.corr_case('Good_implies_real_roundtrip', ok_rt, case={'value': a}, model='Good',
+                              impl={k: real[k] for k in real if k != 'tree'})
             # 1. render error kind
             m_err = m['render'].get('err')
             agree = (m_err == real.get('render_error'))
